@@ -1098,7 +1098,7 @@ def dcd_streams(ck, drv):
                 cnt = 5
             w, o = rng.choice([1, 2, 4]), rng.choice(list(EnumCheckOps))
             c = CmdCheckData(w, o, word(safe), word(safe), cnt)
-            return c, ("C07-checkdata-zero-count" if cnt == 0 else None), f"check/{o.label}/{w}/count={'none' if cnt is None else 'zero' if cnt == 0 else 'set'}"
+            return c, None, f"check/{o.label}/{w}/count={'none' if cnt is None else 'zero' if cnt == 0 else 'set'}"
         if k == "N":
             return CmdNop(rng.choice([0, 0, rng.getrandbits(8)])), None, "nop"
         if k == "I":
@@ -1106,7 +1106,7 @@ def dcd_streams(ck, drv):
             vals = [min(word(safe), 0xFFFFFFFE) for _ in range(n)]
             eng = rng.choice(list(EnumEngine))
             if n and rng.random() < 0.3:
-                return CmdInitialize(eng, list(vals)), "C07-initialize-ctor-data", "initialize/ctor-data"
+                return CmdInitialize(eng, list(vals)), None, "initialize/ctor-data"   # counted in the header length since 6f0b9cd
             c = CmdInitialize(eng)
             for v in vals:
                 c.append(v)
